@@ -27,6 +27,7 @@ package join
 //   gOwned        backing arrays handed to the consumer for good (copy mode)
 //   gLent         backing array lent to the consumer until Release (no-copy mode), 0 = none
 //   gLastDeliv    clock value at the last delivery (or at creation)
+//   gTick         the last event of the loop was a tick of the timeout ticker
 //   gJS, gTO, gNC the configured JoinSize, Timeout and no-copy mode (Opts at New)
 
 //@ ghost var gIn map[int]T
@@ -36,6 +37,7 @@ package join
 //@ ghost var gOwned set
 //@ ghost var gLent ref
 //@ ghost var gLastDeliv time
+//@ ghost var gTick bool
 //@ ghost var gJS int
 //@ ghost var gTO int
 //@ ghost var gNC bool
@@ -44,8 +46,10 @@ package join
 //@   effect gIn := ite(opened, store(gIn, gInN, item), gIn)
 //@   effect gInN := ite(opened, gInN + 1, gInN)
 //@   effect gClosed := gClosed || !opened
+//@   effect gTick := false
 
 //@ event recv ticker.C ()
+//@   effect gTick := true
 
 // What C03 / C08 / C09 say about a slice at the moment it is delivered.
 //@ event send dsc.output (s)
@@ -168,12 +172,14 @@ package join
 
 //@ func (*Discipline).loop
 //@   requires [*] INV(dsc)
+//@   requires [C10] !gTick
 //@   requires [*] dsc.interruptInterval > 0
 //@   requires [C09] gTO > 0
 //@   requires [C03] !gClosed
-//@   modifies dsc.join, elems(dsc.join), dsc.passAt, gClock, gIn, gInN, gClosed, gOutN, gLastDeliv, gLent, gOwned
+//@   modifies dsc.join, elems(dsc.join), dsc.passAt, gClock, gIn, gInN, gClosed, gOutN, gLastDeliv, gLent, gOwned, gTick
 //@   ensures [C03] gClosed && gOutN == gInN
 //@   loop 0
+//@     invariant [C10] a-tick-after-the-timeout-flushes-the-buffer: gTick ==> (gClock - dsc.passAt >= gTO ==> len(dsc.join) == 0)
 //@     invariant [*] INV(dsc)
 //@     invariant [C03] !gClosed
 
@@ -181,7 +187,7 @@ package join
 //@   requires [*] INV(dsc)
 //@   requires [C03] !gClosed
 //@   requires [C09] gTO <= 0
-//@   modifies dsc.join, elems(dsc.join), dsc.passAt, gClock, gIn, gInN, gClosed, gOutN, gLastDeliv, gLent, gOwned
+//@   modifies dsc.join, elems(dsc.join), dsc.passAt, gClock, gIn, gInN, gClosed, gOutN, gLastDeliv, gLent, gOwned, gTick
 //@   ensures [C03] gClosed && gOutN == gInN
 //@   loop 0
 //@     invariant [*] INV(dsc)
@@ -189,9 +195,10 @@ package join
 
 //@ func (*Discipline).main
 //@   requires [*] INV(dsc)
+//@   requires [C10] !gTick
 //@   requires [C03] !gClosed
 //@   requires [C09] (dsc.interruptInterval == 0) <==> (gTO <= 0)
-//@   modifies dsc.join, elems(dsc.join), dsc.passAt, gClock, gIn, gInN, gClosed, gOutN, gLastDeliv, gLent, gOwned
+//@   modifies dsc.join, elems(dsc.join), dsc.passAt, gClock, gIn, gInN, gClosed, gOutN, gLastDeliv, gLent, gOwned, gTick
 
 //@ func Opts.isValid
 //@   ensures [*] (result == nil) <==> (opts.Input != nil && opts.JoinSize != 0)
@@ -203,7 +210,7 @@ package join
 // The ghost state of a discipline that does not exist yet is empty. JoinSize and
 // cap(Input)+1 are sizes the runtime can allocate (otherwise make panics in New).
 //@ func New
-//@   requires [*] ghost-initial-state: gJS == opts.JoinSize && gTO == opts.Timeout && (opts.NoCopy <==> gNC) && gInN == 0 && gOutN == 0 && !gClosed && gLent == 0 && gLastDeliv == gClock && (forall r :: !in(gOwned, r))
+//@   requires [*] ghost-initial-state: !gTick && gJS == opts.JoinSize && gTO == opts.Timeout && (opts.NoCopy <==> gNC) && gInN == 0 && gOutN == 0 && !gClosed && gLent == 0 && gLastDeliv == gClock && (forall r :: !in(gOwned, r))
 //@   requires [*] allocatable: cap(opts.Input) + 1 < two63 && opts.JoinSize < two63
 //@   modifies gClock
 //@   ensures [*] result1 == nil ==> result0 != nil
